@@ -19,15 +19,19 @@ def run(res, only=None):
     core.replay_bin(res, "conv", b, cfgs, tag="moves",
                     expect_ops=["move:extend", "move:truncate", "move:pair", "move:pair_front", "move:triple", "move:two",
                                 "move:same", "move:mask"])
+    # code -> spec: random source values through every as / From / TryFrom impl, judged by TLC (Trace_Lanes)
+    core.record_and_validate(res, "conv", cfgs, draws=8 if res.tier == "quick" else 200, chunks=1 if res.tier == "quick" else 4, expect_kinds=("cv",))
     res.rule = ("numeric: every ordered pair of the 10 scalar kinds (usize with u64) x a source lattice (type extremes, boundaries of "
                 "every narrower target +-1, 2^24/2^31/2^32/2^53/2^63 neighbourhoods; for floats NaN, +-inf, +-0, fractions, values just "
                 "inside/outside each integer range, f64-only values that round/overflow/underflow in f32): 350 as_* casts, 70 From and "
                 "156 TryFrom impls (found by scanning the sources), each in 4 lane rotations; TryFrom additionally with every value "
                 "alone in every lane position; lane-moving conversions (extend, truncate, tuple pairs, Vec3<->Vec3A, Quat<->Vec4, masks) "
-                "on token operands bit-for-bit, Vec3A sources from 6 hidden-lane contents.")
+                "on token operands bit-for-bit, Vec3A sources from 6 hidden-lane contents.  Code -> spec: random source values (biased to the "
+                "edges of the destination range, TryFrom with at most one offending lane) through every impl, recorded per build and judged by "
+                "TLC with arbitrary-precision arithmetic (Trace_Lanes.tla: saturating truncation, nearest-even int->float and f64->f32, wrap).")
     res.assumptions = ["exhaustive 2^32 f32 patterns are not swept (lattice + boundaries); usize is 64 bit here",
                        "int->float results whose odd mantissa needs more than 31 bits are skipped"]
 
 
 def replay(res, path, only=None):
-    return core.generic_replay(res, path, "conv")
+    return core.replay_dispatch(res, path, "conv")
